@@ -511,6 +511,9 @@ func (f *frame) doAppend(cm *ssa.CallCommon, pos token.Pos, st *State, name stri
 	// when cap is exceeded, which cannot happen for n = 0 (0 <= cap). Fine.
 	f.tagAlloc(st, id, et)
 	f.appendHeaps(st, et, s.T, t.T, inplace, id)
+	// the cells of the result named through the operand: in place they are the operand's cells (same array and
+	// offset), otherwise cells of the new array; gives quantified facts about s[i] a term to match on r[i]
+	c.assume(st, fmt.Sprintf("(forall ((i Int)) (! (= (selem %s i) (ite %s (selem %s i) (elem %s i))) :pattern ((selem %s i))))", res, inplace, s.T, id, res))
 	return Val{T: res, Typ: slT}
 }
 
